@@ -189,6 +189,7 @@ def crash_check(rep, rd, tier, seed, P=1024):
     failed = 0
     nhist = 6 if tier == "quick" else 60
     images = 0
+    second_images = 0
     commits_seen = 0
     order_shapes = {}
     reported = set()
@@ -233,11 +234,21 @@ def crash_check(rep, rd, tier, seed, P=1024):
                 muts = muts[:6] + rng.sample(muts, min(len(muts), 30)) + muts[-1:]
             mf = os.path.join(d, "muts%d.txt" % ci)
             open(mf, "w").write("\n".join(" ".join(ps) if ps else "0 -" for (_, ps) in muts) + "\n")
+            # a second crash right after the recovery from the first: on these images the harness makes one more commit and
+            # tears ITS header write too (harness `damage --second`); torn-header images first, they are the ones after
+            # which the two header pages are not simply "older / newer"
+            torn = [k for k, (lb, _) in enumerate(muts) if "torn header" in lb]
+            sec = set(rng.sample(torn, min(len(torn), 12 if tier == "quick" else 80)))
+            sec.update([0, len(muts) - 1])
+            sec.update(rng.sample(range(len(muts)), min(len(muts), 4 if tier == "quick" else 30)))
+            if len(post) > (1 << 20):
+                sec = set(list(sorted(sec))[:4])
+            open(mf + ".second", "w").write("\n".join(str(k) for k in sorted(sec)) + "\n")
             jobs.append((d, snaps[ci], mf, muts, hashes[ci], hashes[ci + 1], text, ci, npages))
 
     def run_job(j):
         d, base, mf, muts, hpre, hpost, text, ci, npages = j
-        rc1, lib = vlib.sh([vlib.harness_bin("debug"), "damage", base, mf, mf + ".scratch.db", "--pagesize", str(P), "--num-pages", str(npages)], timeout=1200)
+        rc1, lib = vlib.sh([vlib.harness_bin("debug"), "damage", base, mf, mf + ".scratch.db", "--pagesize", str(P), "--num-pages", str(npages), "--second", mf + ".second"], timeout=1200)
         rc2, mod = vlib.sh([vlib.MONITOR, "damage", str(P), base, mf], timeout=1200)
         return j, lib.split("\n"), mod.split("\n")
 
@@ -259,6 +270,11 @@ def crash_check(rep, rd, tier, seed, P=1024):
                 bad = "commit returned success but its effects are not in the file"
             elif w[:3] != m.split()[:3] or ("check:ok" in l) != ("check:ok" in m):
                 bad = "library and model disagree on the image: library `%s` model `%s`" % (l[:90], m[:90])
+            sc = [x for x in w if x.startswith("second:")]
+            if sc:
+                second_images += int(sc[0].split(":")[2]) if sc[0].startswith("second:ok:") else 1
+                if not bad and not sc[0].startswith("second:ok"):
+                    bad = "after recovering from this crash image, one more commit and a second crash during its header write: %s" % sc[0][7:]
             if bad:
                 failed += 1
                 key = (label.split()[0] + label.split()[1] if " " in label else label, bad[:30])
@@ -274,5 +290,6 @@ def crash_check(rep, rd, tier, seed, P=1024):
         rep.distinct.update(hashlib.sha1((d + label).encode()).hexdigest() for (label, _) in muts)
     rep.cov["evaluations"] = images
     rep.cov["commits_traced"] = commits_seen
+    rep.cov["second_crash_images_after_recovery"] = second_images
     rep.cov["io_shapes"] = order_shapes
     return failed
